@@ -66,7 +66,7 @@ PROPS["C07"] = {
     "level_note": "Trusted: as C06. One recorded finding (F10: reserved symbol names).",
     "technique": "Lean 4 proof (mutual structural induction) + differential correspondence",
     "modules": ["GitSizer.Props.C07"],
-    "engines": [{"name": "refs", "quick": 12000, "thorough": 1200000, "per_shard": 3000}],
+    "engines": [{"name": "refs", "quick": 12000, "thorough": 1200000, "per_shard": 3000}, {"name": "output", "quick": 1200, "thorough": 120000, "per_shard": 200}],
     "rule": "same generator as C06; symbols compared as multisets per reference, Groups() exactly.",
     "assumptions": ["tallies are the per-symbol counts of the categoriser's output (recordReferenceGroup is a counter increment)"],
 }
@@ -101,6 +101,25 @@ PROPS["C09"] = {
     "level_note": "As C01. Storage layout (loose/packed) and root order are checked end-to-end (engine e2e), not proved.",
     "technique": "Lean 4 proof (corollaries of the aggregator theorem) + differential correspondence over schedules",
     "modules": ["GitSizer.Props.C09"], "engines": [{"name": "graph", "quick": 6000, "thorough": 400000, "per_shard": 1500}], "rule": _GRAPH_RULE,
+}
+
+PROPS["C11"] = {
+    "level_text": "Theorems on the renderer model over the REGENERATED metric table: row shown iff saturated or value/reference >= threshold (NaN/±Inf thresholds included); marker = 30 '!' iff saturated or > 30 else floor(alert) '*'; raising the threshold only removes rows and never changes a marker; threshold 0 shows all; 'no problems' line iff no row qualifies; table/v1/v2 read the same struct fields. Correspondence: TableString byte-exact, JSON v1/v2 field-by-field, levelOfConcern = value/referenceValue recomputed independently.",
+    "level_note": "Trusted: Lean kernel; gofacts (metric table extraction); exact integer model of float64 division (validated byte-exactly through the rendered markers and numerals); encoding/json. The model is tied to sizes/output.go by differential testing.",
+    "technique": "Lean 4 proof on the renderer model over regenerated tables + byte-exact differential correspondence",
+    "modules": ["GitSizer.Props.C11"],
+    "engines": [{"name": "output", "quick": 2400, "thorough": 120000, "per_shard": 200}, {"name": "human", "quick": 4000, "thorough": 200000, "per_shard": 20000}],
+    "rule": "synthetic measurements (each of 22 fields at k*reference for k=0..32 and +-1, saturated, zero, random) x two thresholds per case (0, 1, 30, fractional, 29.999, 30.0001, negative, 1e9, NaN, +Inf, -Inf, k, nextafter(k)) x name styles x witness sets (nil / null oid / shared oid / described) x refgroup lists (nested symbols to 14 dots, duplicate symbols, missing tallies); non-trivial = every case.",
+    "assumptions": ["float64 division and conversion are IEEE-754 round-to-nearest-even"],
+}
+PROPS["C19"] = {
+    "level_text": "Theorems: footnote numbering for every sequence of texts of arbitrary bytes (equal texts share a number, new text gets next number, list = distinct non-empty texts in first-citation order, no repetition); OID JSON token is quoted lowercase hex for any 20 bytes. Correspondence/judge: citations and footnote lines parsed back from the real table must be 1..k in first-citation order, all cited, distinct; JSON v1/v2 must be valid JSON with the expected key set for nasty names.",
+    "level_note": "Trusted: encoding/json escaping (checked with json.Valid on every case, not proved). One recorded finding F13 (names unescaped in the table).",
+    "technique": "Lean 4 proof (footnote numbering) + differential correspondence with table re-parsing",
+    "modules": ["GitSizer.Props.C19"],
+    "engines": [{"name": "output", "quick": 2400, "thorough": 120000, "per_shard": 200}, {"name": "parsers", "quick": 4000, "thorough": 400000, "per_shard": 20000}],
+    "rule": "as C11; one case in eight uses nasty names (newline, tab, quotes, backslash, '|', '[n]', non-UTF-8, over-long) for refgroup display names and witness descriptions; non-trivial = every case.",
+    "assumptions": [],
 }
 
 NOT_APPLICABLE = {p: "check under construction in this commit; see DESIGN.md §8 for the planned machinery" for p in
